@@ -505,6 +505,33 @@ class World(object):
     def any_in_transaction(self):
         return [c.v_path for c in self.server_db_conns() if c.in_transaction]
 
+    def pending_changes(self):
+        """Tables whose content as a server connection inside a transaction sees it differs from what the
+        independent reader sees (= changes that are pending, not merely a transaction that was left open)."""
+        out = []
+        for c in self.server_db_conns():
+            if not c.in_transaction:
+                continue
+            if c.v_path == self.channel_path:
+                reader, tables = self.reader, CHANNEL_TABLES
+            elif c.v_path == self.usage_path:
+                reader, tables = self.ureader, USAGE_TABLES
+            else:
+                continue
+            if reader is None:
+                continue
+            for t in tables:
+                q = "SELECT rowid, * FROM `%s` ORDER BY rowid" % t
+                cur = _sqlite3.Connection.cursor(c)
+                cur.row_factory = None
+                mine = [tuple(r) for r in cur.execute(q).fetchall()]
+                rc = reader.cursor()
+                rc.row_factory = None
+                theirs = [tuple(r) for r in rc.execute(q).fetchall()]
+                if mine != theirs:
+                    out.append(t)
+        return out
+
     # -- lifecycle --------------------------------------------------------------
     def options(self):
         a = ["--port=tcp:0:interface=127.0.0.1", "--channel-db=" + self.channel_path]
